@@ -160,6 +160,15 @@ def run_njobs(seed, n, real_processes=False):
             call['njobs'] = 1
             runner = F.run_tables_call
             descr = F.describe_tables
+        wide = False
+        if kind == 'join' and rng.random() < 0.05 and call['measure'] != 'EDIT_DISTANCE':
+            # MORE right rows than CPUs and n_jobs above the CPU count: every chunk must still be processed
+            wide = True
+            ncpu = T.cpu_count()
+            Lw, Rw, namesw = T.gen_tables(rng, call['kind'], max_rows=3 * (ncpu + 4), missing_p=0.0, universe_size=8)
+            while len(Rw) < 3 * (ncpu + 4):
+                Lw, Rw, namesw = T.gen_tables(rng, call['kind'], max_rows=3 * (ncpu + 4), missing_p=0.0, universe_size=8)
+            call = dict(call, L=Lw.head(4), R=Rw, names=namesw, l_out=None, r_out=None)
         base = runner(call)
         if isinstance(base, Exception):
             res['exceptions'].append({'case': i, 'call': descr(call, base), 'traceback': getattr(base, '_tb', '')})
@@ -169,7 +178,7 @@ def run_njobs(seed, n, real_processes=False):
         o0 = cs.obs('o0', base)
         exprs, meta = [], []
         variants = []
-        for nj in rng.sample([2, 3, 4, 5, 7, -1, -2, -20, 50], 3):
+        for nj in ([T.cpu_count() + 4, T.cpu_count() + 1, 7] if wide else rng.sample([2, 3, 4, 5, 7, -1, -2, -20, 50], 3)):
             variants.append(('njobs=%d' % nj, dict(call, njobs=nj)))
         variants.append(('permute_L', dict(call, L=permute(call['L'], rng), njobs=rng.choice([1, 2]))))
         variants.append(('permute_R', dict(call, R=permute(call['R'], rng), njobs=rng.choice([1, 3]))))
@@ -406,6 +415,13 @@ def run_laws(seed, n, forced=None):
             call = J.boundary_call(rng, call['measure'])
         elif r_ < 0.6 and call['measure'] != 'EDIT_DISTANCE':
             call = J.skew_call(rng, call['measure'])
+        if rng.random() < 0.08:
+            # scores that are exact ties at the fifth decimal (the two orientations of a pair must
+            # round the same way); for cosine with irrational square roots
+            mt = rng.choice(['COSINE', 'COSINE', 'JACCARD', 'DICE'])
+            call = J.boundary_call(rng, mt, force_tie='irrational' if mt == 'COSINE' else True)
+            call['op'] = '>='
+            call['t'] = min(call['t'], 0.5)
         if forced is not None:
             call, law = forced[i]
             call = dict(call)
